@@ -36,18 +36,6 @@ PROFILES_QUICK += [("callproj", 400), ("callproj_lam", 200)]
 PROFILES_THOROUGH += [("callproj", 4000), ("callproj_lam", 2000)]
 
 
-def corpus_cases(pid):
-    """corpus/<pid>/*.json: hand-written programs (with their S-expression when the model is to judge them), run first
-    (the function main has under this name; keep one of the two after the merge)"""
-    d = os.path.join(VERIF, "corpus", pid)
-    out = []
-    for fn in sorted(os.listdir(d)) if os.path.isdir(d) else []:
-        if fn.endswith(".json"):
-            c = json.load(open(os.path.join(d, fn)))
-            out.append({"id": "corpus:" + fn[:-5], "src": c["src"], "sx": c.get("sx"), "inputs": c.get("inputs", []), "times": c.get("times", 4)})
-    return out
-
-
 def main(ctx, args, pid="C02", backend="vm"):
     ctx.assumptions += [
         "Model/Core.lean is the reference semantics (hand written from the language documentation and the code); generated programs stay in its fragment",
